@@ -557,9 +557,15 @@ type Evidence struct {
 var verifDir = "/verif"
 
 func writeEvidence(ev *Evidence) {
-	os.MkdirAll(filepath.Join(verifDir, "evidence"), 0755)
+	// VERIF_EVIDENCE_DIR: evaluations of seeded changes write their evidence elsewhere, so that the committed
+	// evidence always comes from the unchanged tree
+	dir := filepath.Join(verifDir, "evidence")
+	if d := os.Getenv("VERIF_EVIDENCE_DIR"); d != "" {
+		dir = d
+	}
+	os.MkdirAll(dir, 0755)
 	b, _ := json.MarshalIndent(ev, "", " ")
-	os.WriteFile(filepath.Join(verifDir, "evidence", ev.PropertyID+".json"), append(b, '\n'), 0644)
+	os.WriteFile(filepath.Join(dir, ev.PropertyID+".json"), append(b, '\n'), 0644)
 }
 
 // finishCheck aggregates case results into verdict, stdout lines and the evidence file.
